@@ -144,6 +144,19 @@ func parsePlugins(ifi rawInterface, maxInterval time.Duration, epoch time.Time) 
 			return nil, err
 		}
 
+		// Only IPv6 prefixes with the lengths defined for NAT64 can be
+		// encoded in a PREF64 option, per
+		// https://datatracker.ietf.org/doc/html/rfc8781#section-4.
+		if !prefix.Addr().Is6() || prefix.Addr().Is4In6() {
+			return nil, fmt.Errorf("pref64 prefix %q is not an IPv6 CIDR prefix", base)
+		}
+
+		switch prefix.Bits() {
+		case 96, 64, 56, 48, 40, 32:
+		default:
+			return nil, fmt.Errorf("pref64 prefix %q must have a length of 96, 64, 56, 48, 40, or 32", base)
+		}
+
 		plugins = append(plugins, plugin.NewPREF64(prefix, maxInterval))
 	}
 
